@@ -1,6 +1,7 @@
 import QP.Proofs.C07Lemmas
 import QP.Proofs.C07Range
 import QP.Proofs.C07Affine
+import QP.Proofs.C07Table
 /-!
 # C07: the closed forms agree with the denoted pulse (induction over the supported fragment)
 -/
@@ -627,6 +628,130 @@ theorem claim_func (id ch0 dur e meas cons) (haff : e.affineIn "t" = true) :
     · rw [plEnd_nil] at hv; cases hv
 
 
+/-! ### tables -/
+
+theorem regular_table_spec {id entries meas cons} {σ : Scope} (h : regular (.table id entries meas cons) σ = true)
+    {c : Chan} {es : List TEntry} (hl : entries.lookup c = some es) {ws : List WEntry}
+    (hws : instEntries σ es = .ok ws) : sortedTimes ws = true ∧ ∀ w ∈ ws, 0 ≤ w.t := by
+  rw [regular] at h
+  have := (List.all_eq_true.mp h) (c, es) (mem_of_lookup entries c es hl)
+  simp only [hws, Bool.and_eq_true, List.all_eq_true, decide_eq_true_eq] at this
+  exact this
+
+theorem claim_table (id entries meas cons) : Claim (.table id entries meas cons) := by
+  intro σ mm cm P c o hden hreg hinj hc hcm
+  simp only [PT.definedChannels] at hc
+  rw [mem_dedup] at hc
+  obtain ⟨es, he⟩ := lookup_isSome_of_mem_keys entries c hc
+  obtain ⟨inst, hinst, hemp, hval⟩ := table_pulseVal hden
+  constructor
+  · intro r hr
+    rw [integralOf] at hr
+    simp only [he, keyOf, ok_bind, bind_ok_iff] at hr
+    obtain ⟨ws, hws, hr⟩ := hr
+    obtain ⟨hsorted, hnonneg⟩ := regular_table_spec hreg he hws
+    cases ws with
+    | nil => simp at hr
+    | cons w rest =>
+      cases hlast : lastEntry? (w :: rest) with
+      | none => rw [hlast] at hr; simp at hr
+      | some l =>
+        rw [hlast] at hr
+        simp only [bind_ok_iff, pure_ok_iff] at hr
+        obtain ⟨D, hD, rfl⟩ := hr
+        obtain ⟨ws', hws', _, hle, h0, h1⟩ := tableInstantiate_spec hinst id meas cons D hD c es he
+        rw [hws] at hws'; cases hws'
+        have hlt : lastT (w :: rest) = l.t := by rw [lastT_eq, hlast]
+        rw [hlt] at hle
+        -- the closed form: pre entry, entries, post entry
+        have hcf : sequenceIntegral (({ t := 0, v := w.v, interp := .hold } : WEntry) :: (w :: rest) ++
+            [{ t := D, v := l.v, interp := .hold }]) =
+            sequenceIntegral (frontPad (w :: rest)) + l.v * (D - l.t) := by
+          have hl' : lastEntry? (({ t := 0, v := w.v, interp := .hold } : WEntry) :: w :: rest) = some l := by
+            rw [lastEntry?_cons_cons]; exact hlast
+          have := sequenceIntegral_append_singleton _ l { t := D, v := l.v, interp := .hold } hl'
+          rw [List.cons_append] at this ⊢
+          rw [this, sequenceIntegral_frontPad w rest (hnonneg w (List.mem_cons_self ..))]
+          simp [interpIntegral]
+        rw [hcf]
+        by_cases hD0 : D = 0
+        · rw [hemp (h0 hD0), pulseVal_empty]
+          have hall : ∀ x ∈ w :: rest, x.t = 0 := by
+            intro x hx
+            have h1 := hnonneg x hx
+            have h2 := sorted_le_lastT _ hsorted x hx
+            rw [hlt] at h2
+            grind
+          have hl0 : l.t = 0 := by
+            have : l ∈ w :: rest := by
+              rw [lastEntry?_eq_getLast?] at hlast
+              exact List.mem_of_getLast? hlast
+            exact hall l this
+          have hfp : sequenceIntegral (frontPad (w :: rest)) = 0 := by
+            apply sequenceIntegral_zero
+            intro x hx
+            simp only [frontPad] at hx
+            split at hx
+            · rcases List.mem_cons.mp hx with rfl | hx
+              · rfl
+              · exact hall x hx
+            · exact hall x hx
+          rw [hfp, hD0, hl0]; simp [plIntegral]; grind
+        · obtain ⟨hv, hs⟩ := hval c o _ (h1 hD0) hcm
+          rw [hv, plIntegral_entriesToPL _ hs]
+          have hlf : lastEntry? (frontPad (w :: rest)) = some l := by rw [lastEntry?_frontPad]; exact hlast
+          unfold backPad
+          rw [hlf]
+          simp only
+          split
+          · rw [sequenceIntegral_append_singleton _ l _ hlf]
+            simp [interpIntegral]
+          · have : l.t = D := by grind
+            rw [this]; grind
+  · intro e htags v v' hv hv'
+    rw [pathTags] at htags
+    simp only [hinst, he, keyOf, ok_bind, bind_ok_iff] at htags
+    obtain ⟨orig, horig, htags⟩ := htags
+    cases hl : inst.lookup c with
+    | none => rw [hl] at htags; simp at htags
+    | some ws =>
+      rw [hl] at htags
+      simp only [pure_ok_iff] at htags
+      obtain ⟨hpv, _⟩ := hval c o ws hl hcm
+      rw [hpv] at hv
+      rw [endOf] at hv'
+      simp only [he, keyOf, ok_bind] at hv'
+      cases e with
+      | first =>
+        simp only at hv'
+        cases es with
+        | nil => simp at hv'
+        | cons x r =>
+          simp only at hv'
+          obtain ⟨w, rest, rfl, hwv, _⟩ := instEntries_first x r orig horig
+          simp only [tableTags] at htags
+          split at htags
+          · rename_i hq
+            have : plEnd .first (entriesToPL ws) = some w.v := by simpa using hq
+            rw [this] at hv; cases hv
+            rw [hwv] at hv'; cases hv'; rfl
+          · cases htags
+      | last =>
+        simp only at hv'
+        cases hg : es.getLast? with
+        | none => rw [hg] at hv'; simp at hv'
+        | some x =>
+          rw [hg] at hv'
+          simp only at hv'
+          obtain ⟨w, hw1, _, hw3⟩ := instEntries_last es orig horig x hg
+          simp only [tableTags, hw1] at htags
+          split at htags
+          · rename_i hq
+            have : plEnd .last (entriesToPL ws) = some w.v := by simpa using hq
+            rw [this] at hv; cases hv
+            rw [hw3] at hv'; cases hv'; rfl
+          · cases htags
+
 /-! ### the induction -/
 
 mutual
@@ -649,7 +774,8 @@ theorem claim : ∀ (pt : PT), supported pt = true → Claim pt
   | .mapping id body pm mm' cm' cons, h => by
       simp only [supported, Bool.and_eq_true, Bool.not_eq_true'] at h
       exact claim_mapping id body pm mm' cm' cons (claim body h.1.1.1) h.1.1.2 h.1.2 h.2
-  | .table .., h | .point .., h | .parallel .., h | .atomicMulti .., h | .arith .., h | .arithAtomic .., h
+  | .table id entries meas cons, _ => claim_table id entries meas cons
+  | .point .., h | .parallel .., h | .atomicMulti .., h | .arith .., h | .arithAtomic .., h
   | .timeReversal .., h => by simp [supported] at h
 theorem claimAll : ∀ (subs : List PT), supportedAll subs = true → ∀ p ∈ subs, Claim p
   | [], _ => fun p hp => nomatch hp
